@@ -169,6 +169,7 @@ def _transfer(g, info, p, env, pins, bool_only=True):
         for v in info.locals_of(c.f):
             env.pop(v, None)
         env.pop(('ret', id(c)), None)
+        env.pop(('retpt', id(c)), None)
         lp = _local_pins(g, info, c.parent, c.caller, env, pins)
         args = c.call.get('args', []) if not c.lambda_of else []
         for pi, prm in enumerate(c.f.params):
@@ -202,7 +203,43 @@ def _transfer(g, info, p, env, pins, bool_only=True):
         env = dict(env)
         e = n.get('e')
         env[('ret', id(p.ctx))] = eval3(f, e, env, lp) if e is not None and e >= 0 else U
+        env[('retpt', id(p.ctx))] = n['i']     # which return of the helper produced the value (for result resolution)
     return env
+
+
+def helper_result(g, f, idx, ctx, env):
+    """when expression idx (function f, context ctx) is - conversions and copies stripped - a call of a helper that is inlined
+    into the graph and the walk recorded which of its returns was taken: (helper func, returned expr idx, helper ctx), else None"""
+    info = _info(g)
+    for _ in range(8):
+        n = f.nodes[idx]
+        if n['k'] == 'cast':
+            idx = n['e']
+            continue
+        if n['k'] == 'construct' and n.get('copymove') and len(n.get('args', [])) == 1:
+            idx = n['args'][0]
+            continue
+        if n['k'] in ('ExprWithCleanups', 'MaterializeTemporaryExpr', 'CXXBindTemporaryExpr') and n.get('ch'):
+            idx = n['ch'][0]
+            continue
+        break
+    n = f.nodes[idx]
+    if n['k'] != 'call':
+        return None
+    for (ci, ch) in info.children.get(id(ctx), ()):
+        if ci == n['i']:
+            ri = env.get(('retpt', id(ch)))
+            if ri is None:
+                return None
+            e = ch.f.nodes[ri].get('e')
+            if e is None or e < 0:
+                return None
+            return ch.f, e, ch
+    return None
+
+
+def local_pins(g, ctx, f, env, pins):
+    return _local_pins(g, _info(g), ctx, f, env, pins)
 
 
 def _edge_feasible(g, info, p, lab, env, pins):
@@ -423,7 +460,7 @@ def explore_pinned(g, pins, switch_vals=None, probes=(), limit=40000):
                 e = n.get('e')
                 lp = _local_pins(g, info, p.ctx, f, env, pins)
                 rets.add((n['i'], eval3(f, e, env, lp) if e is not None and e >= 0 else U,
-                          frozenset((k, v) for (k, v) in env.items() if not isinstance(k, tuple))))
+                          frozenset((k, v) for (k, v) in env.items() if not (isinstance(k, tuple) and k[0] == 'ret'))))
                 continue
         succ = p.succ
         cases = [(q, lab) for (q, lab) in succ if lab and lab[0] == 'case']
